@@ -18,6 +18,7 @@ import (
 	"fmt"
 	"io"
 	golog "log"
+	"math"
 	"net"
 	"net/http"
 	"net/http/httptest"
@@ -61,6 +62,8 @@ type c11Reg struct {
 	proc   *regprocessor.RegProcessor
 	m      *metrics.Metrics
 	logger *log.Logger
+	health *c11Health
+	apis   []*APIRegServer // the front ends of the loopback servers (their locks count in the health check)
 }
 
 func c11Subnets(t *testing.T) (string, []uint32) {
@@ -202,8 +205,26 @@ func crashSig(entry, report string) (string, string) {
 }
 
 func (c *c11Reg) newAPI(gen uint32, logIP bool) *APIRegServer {
-	return &APIRegServer{processor: c.proc, latestClientConf: &pb.ClientConf{Generation: proto.Uint32(gen)}, logger: c.logger,
+	return &APIRegServer{processor: procRef{c}, latestClientConf: &pb.ClientConf{Generation: proto.Uint32(gen)}, logger: c.logger,
 		logClientIP: logIP, metrics: c.m}
+}
+
+// c11DeclaredLengths: Content-Length values for a body of n bytes: around n and around the handler's
+// lower bound, the powers of two at which an allocation sized by the header fails (makeslice: len out of
+// range above 2^48 on 64-bit; MaxInt64) - those first, so that the verdict is the missing status line -,
+// just beyond what net/http parses, and spellings it refuses. Lengths between 2^31 and 2^48 are left out on
+// purpose: a handler that sized a buffer by them would take the harness process down ("fatal error: out of
+// memory", which nothing recovers; the check reports that as a crash of the process) instead of failing
+// the oracle with the request as replay.
+func c11DeclaredLengths(n int) []string {
+	l := []string{"9223372036854775807", "4611686018427387904", "281474976710657", "9223372036854775806",
+		"0", "1", "32", "33", "34", strconv.Itoa(n), strconv.Itoa(n + 1), strconv.Itoa(n + 1000), "1048576", "1073741824",
+		"9223372036854775808", "18446744073709551615", "18446744073709551616", "99999999999999999999999999",
+		"-1", "+5", " 40", "40 ", "0x28", "4e1", "40, 40", "", "٤٠"}
+	if n > 0 {
+		l = append(l, strconv.Itoa(n-1))
+	}
+	return l
 }
 
 type noLenReader struct{ r io.Reader }
@@ -215,6 +236,7 @@ func (c *c11Reg) httpFuzz() {
 	servers := []*httptest.Server{}
 	for _, gen := range []uint32{0, 1, 1000000} { // older than, equal to, newer than what clients name
 		s := c.newAPI(gen, gen != 1)
+		c.apis = append(c.apis, s)
 		r := mux.NewRouter()
 		r.HandleFunc("/register", s.register)
 		r.HandleFunc("/register-bidirectional", s.registerBidirectional)
@@ -224,6 +246,15 @@ func (c *c11Reg) httpFuzz() {
 		defer srv.Close()
 		servers = append(servers, srv)
 	}
+	// after every request: the locks of the processor and of the three front ends are free again
+	healthy := func(entry, replay string) {
+		patience := 200 * time.Millisecond // the handler goroutine may still be on its way out
+		if c.health != nil && c.health.reported[entry] >= 5 {
+			patience = 0
+		}
+		c.after(entry, replay, patience, c.apis[0], c.apis[1], c.apis[2])
+	}
+	defer func() { c.probeLive("http", "http|section-end"); c.apis = nil }()
 	client := &http.Client{Timeout: 2 * time.Second}
 	patient := &http.Client{Timeout: 15 * time.Second}
 	// X-Forwarded-For: nil = no header; otherwise the header instances in order (the handler takes the
@@ -278,6 +309,7 @@ func (c *c11Reg) httpFuzz() {
 		resp.Body.Close()
 		c.out.Count(fmt.Sprintf("http:%s:%d", kind, resp.StatusCode))
 		c.sender.Take()
+		healthy("http"+strings.ReplaceAll(path, "/", "-"), replay)
 	}
 	// raw: a request written byte by byte onto a TCP connection, for what net/http's client will not send:
 	// a body shorter than its Content-Length (then the sending side is shut), header lines of odd shapes
@@ -323,6 +355,7 @@ func (c *c11Reg) httpFuzz() {
 			c.out.Count("http:" + kind + ":" + line[9:12])
 		}
 		c.sender.Take()
+		healthy("http-raw", replay)
 	}
 	// the request of DESIGN §7 first: a wrapper without registration payload
 	noPayload := vlibc11.Marshal(&pb.C2SWrapper{SharedSecret: c.r.Bytes(32), RegistrationAddress: c.r.Bytes(16)})
@@ -348,6 +381,36 @@ func (c *c11Reg) httpFuzz() {
 				raw(servers[2], []byte(fmt.Sprintf("POST %s HTTP/1.1\r\nHost: x\r\nContent-Length: %d\r\n\r\n%s", path, declared, sent)), "body-short")
 			}
 		}
+		// the declared length is a number the sender chooses, independent of the bytes that follow: every
+		// spelling and every magnitude must end in a status line (the handler must not size anything by it)
+		for _, declared := range c11DeclaredLengths(len(wellFormed)) {
+			for _, sent := range [][]byte{wellFormed, wellFormed[:10], nil} {
+				raw(servers[1], []byte(fmt.Sprintf("POST %s HTTP/1.1\r\nHost: x\r\nContent-Length: %s\r\n\r\n%s", path, declared, sent)), "declared-length")
+			}
+		}
+		raw(servers[0], []byte(fmt.Sprintf("POST %s HTTP/1.1\r\nHost: x\r\nContent-Length: %d\r\nContent-Length: %d\r\n\r\n%s", path, len(wellFormed), len(wellFormed)+1, wellFormed)), "declared-length-twice")
+		raw(servers[0], []byte(fmt.Sprintf("POST %s HTTP/1.1\r\nHost: x\r\nContent-Length: %d\r\nContent-Length: %d\r\n\r\n%s", path, len(wellFormed), len(wellFormed), wellFormed)), "declared-length-twice")
+		raw(servers[0], []byte(fmt.Sprintf("POST %s HTTP/1.1\r\nHost: x\r\nContent-Length: %d\r\nTransfer-Encoding: chunked\r\n\r\n%x\r\n%s\r\n0\r\n\r\n", path, 1<<62, len(wellFormed), wellFormed)), "declared-length-and-chunked")
+		raw(servers[0], []byte(fmt.Sprintf("POST %s HTTP/1.1\r\nHost: x\r\n\r\n%s", path, wellFormed)), "no-length")
+		// the body cut at every byte, behind a truthful header (the sending side is shut after the cut)
+		for k := 0; k <= len(wellFormed); k++ {
+			raw(servers[1], []byte(fmt.Sprintf("POST %s HTTP/1.1\r\nHost: x\r\nContent-Length: %d\r\n\r\n%s", path, len(wellFormed), wellFormed[:k])), "body-cut")
+		}
+		// chunked bodies whose chunk sizes lie: larger and smaller than the data, no last chunk, no line ends
+		for _, chunks := range []string{
+			fmt.Sprintf("%x\r\n%s\r\n0\r\n\r\n", len(wellFormed), wellFormed),
+			fmt.Sprintf("%x\r\n%s\r\n0\r\n\r\n", len(wellFormed)+1, wellFormed),
+			fmt.Sprintf("%x\r\n%s\r\n0\r\n\r\n", len(wellFormed)-1, wellFormed),
+			fmt.Sprintf("%x\r\n%s\r\n", len(wellFormed), wellFormed),
+			fmt.Sprintf("%x\r\n%s", len(wellFormed), wellFormed),
+			fmt.Sprintf("%x\r\n%s\r\n%x\r\n", len(wellFormed), wellFormed, 1<<40),
+			fmt.Sprintf("%x;ext=1\r\n%s\r\n0\r\n\r\n", len(wellFormed), wellFormed),
+			"zz\r\nabc\r\n0\r\n\r\n", "-5\r\nabc\r\n0\r\n\r\n", "0\r\n\r\n", "",
+		} {
+			raw(servers[1], []byte(fmt.Sprintf("POST %s HTTP/1.1\r\nHost: x\r\nTransfer-Encoding: chunked\r\n\r\n%s", path, chunks)), "chunk-sizes")
+		}
+		raw(servers[0], []byte(fmt.Sprintf("POST %s HTTP/1.1\r\nHost: x\r\nTransfer-Encoding: chunked\r\n\r\nffffffffffffffff\r\n%s", path, wellFormed)), "chunk-size-huge")
+		raw(servers[0], []byte(fmt.Sprintf("POST %s HTTP/1.1\r\nHost: x\r\nTransfer-Encoding: chunked\r\n\r\n7fffffffffffffff\r\n%s", path, wellFormed)), "chunk-size-huge")
 		raw(servers[0], []byte(fmt.Sprintf("POST %s HTTP/1.1\r\nHost: x\r\nContent-Length: %d\r\nX-Forwarded-For:\r\nX-Forwarded-For: ,\r\n\r\n%s", path, len(wellFormed), wellFormed)), "raw-xff")
 		raw(servers[0], []byte(fmt.Sprintf("POST %s HTTP/1.1\r\nHost: x\r\nContent-Length: %d\r\nX-Forwarded-For: 1.2.3.4,\x00\r\n\r\n%s", path, len(wellFormed), wellFormed)), "raw-xff-nul")
 		raw(servers[0], []byte(fmt.Sprintf("POST %s HTTP/1.1\r\nHost: x\r\nTransfer-Encoding: chunked\r\n\r\n5\r\nabc", path)), "chunk-short")
@@ -367,6 +430,15 @@ func (c *c11Reg) httpFuzz() {
 			hdr = xff[c.r.Intn(len(xff))]
 		}
 		c.sender.Fail = c.r.Chance(1, 20)
+		if c.r.Chance(1, 12) { // a declared length that has nothing to do with the body, in front of any kind of body
+			dl := c11DeclaredLengths(len(b))
+			sent := b
+			if c.r.Chance(1, 3) {
+				sent = b[:c.r.Intn(len(b)+1)]
+			}
+			raw(srv, []byte(fmt.Sprintf("%s %s HTTP/1.1\r\nHost: x\r\nContent-Length: %s\r\n\r\n%s", method, path, dl[c.r.Intn(len(dl))], sent)), kind+"-declared-length")
+			continue
+		}
 		send(srv, method, path, b, hdr, c.r.Chance(1, 15), kind)
 	}
 	c.sender.Fail = false
@@ -491,7 +563,7 @@ func (c *c11Reg) httpTable() {
 	garbage := append(bytes.Repeat([]byte{0xff}, 40), 0x07)
 	for _, remoteOk := range []bool{true, false} {
 		for _, post := range []bool{true, false} {
-			for _, cl := range []int{-1, 0, 32, 40} {
+			for _, cl := range []int{-1, 0, 32, 33, 40, 1<<48 + 1, 1 << 62, math.MaxInt64} {
 				for _, readable := range []bool{true, false} {
 					for _, wr := range []string{"N", "0", "1"} {
 						for _, newer := range []bool{false, true} {
@@ -586,12 +658,17 @@ func (c *c11Reg) processor() {
 			wc := proto.Clone(w).(*pb.C2SWrapper)
 			res := vlibc11.Guard(func() { f(wc) })
 			c.out.Checked()
+			entry := []string{"register-bidirectional", "register-unidirectional", "process-bd-req", "process-c2s-wrapper"}[k]
 			if res.Bad() {
-				c.fail([]string{"register-bidirectional", "register-unidirectional", "process-bd-req", "process-c2s-wrapper"}[k], res, "proc|"+vlib.Hex(b))
+				c.fail(entry, res, "proc|"+vlib.Hex(b))
+			}
+			if !res.Hang {
+				c.after(entry, "proc|"+vlib.Hex(b), 0)
 			}
 		}
 		c.sender.Take()
 	}
+	c.probeLive("processor", "proc|section-end")
 	res := vlibc11.Guard(func() { _, _ = c.proc.VerifProcessC2SWrapper(nil, nil, pb.RegistrationSource_API) })
 	if res.Bad() {
 		c.fail("process-c2s-wrapper", res, "proc|nil")
@@ -603,7 +680,7 @@ func (c *c11Reg) processor() {
 
 func (c *c11Reg) dnsDirect() {
 	for _, gen := range []uint32{0, 1000000} {
-		s := dnsregserver.NewVerifDNSRegServer(c.proc, gen, c.logger, c.m)
+		s := dnsregserver.NewVerifDNSRegServerOn(procRef{c}, gen, c.logger, c.m)
 		n := vlib.Budget(5000, 80000)
 		for i := 0; i < n; i++ {
 			b, kind := c.body(i)
@@ -623,9 +700,13 @@ func (c *c11Reg) dnsDirect() {
 			if res.Bad() {
 				c.fail("dns-process-request", res, "dnsreq|"+vlib.Hex(b))
 			}
+			if !res.Hang {
+				c.after("dns-process-request", "dnsreq|"+vlib.Hex(b), 0, s)
+			}
 			c.sender.Take()
 		}
 	}
+	c.probeLive("dns-process-request", "dnsreq|section-end")
 }
 
 // ---------------------------------------------------------------------------------------------
@@ -994,8 +1075,32 @@ func TestVerifC11Child(t *testing.T) {
 		} else {
 			feed.log("C %d %s %s\n", feed.next-1, "x"+hex.EncodeToString(b), "x"+hex.EncodeToString(r))
 		}
+		// one datagram at a time: nothing else is inside the processor now
+		if held := append(vlibc11.LocksHeld(c.proc, 0), vlibc11.LocksHeld(srv, 0)...); len(held) > 0 {
+			feed.log("L %d %s\n", feed.next-1, strings.Join(held, ","))
+			c.renewProc()
+			srv = dnsregserver.NewVerifDNSRegServer(c.proc, 5, c.logger, c.m)
+		}
 		return r, err
 	})
+	// the registrar behind the responder still reloads and answers
+	probe := make(chan error, 1)
+	go func() {
+		if err := c.proc.ReloadSubnets(); err != nil {
+			probe <- err
+			return
+		}
+		_, err := c.proc.RegisterBidirectional(c.probeWrapper(), pb.RegistrationSource_BidirectionalDNS, []byte{10, 0, 0, 1})
+		probe <- err
+	}()
+	select {
+	case err := <-probe:
+		if err != nil {
+			feed.log("PROBE-ERROR %v\n", err)
+		}
+	case <-time.After(15 * time.Second):
+		feed.log("WEDGED %s\n", vlibc11.Stacks(4))
+	}
 	feed.log("DONE %d %d\n", feed.answers, callbacks)
 }
 
@@ -1070,6 +1175,20 @@ func (c *c11Reg) feedChild(t *testing.T, priv []byte, in [][]byte) {
 						s.response, _ = hex.DecodeString(strings.TrimPrefix(y, "x"))
 					}
 				}
+			case strings.HasPrefix(l, "L "):
+				var k int
+				var x string
+				if n, _ := fmt.Sscanf(l, "L %d %s", &k, &x); n == 2 && k < len(in) {
+					c.out.OracleFail("C11:dns-responder:lock-held-after-return",
+						"the registrar answered the registration a datagram carried and returned with "+x+" held: the next reload blocks for ever and every bidirectional registration behind it",
+						"dns|"+hex.EncodeToString(in[k])+"|"+hex.EncodeToString(priv))
+				}
+			case strings.HasPrefix(l, "WEDGED "):
+				c.out.OracleFail("C11:dns-responder:hang-after-rejected-input",
+					"after the datagrams of this run (each dealt with) the registrar behind the responder did not reload its subnets and answer a well-formed registration within 15 s; stuck: "+strings.TrimPrefix(l, "WEDGED "),
+					"dns|"+hex.EncodeToString(in[min(max(last, 0), len(in)-1)])+"|"+hex.EncodeToString(priv))
+			case strings.HasPrefix(l, "PROBE-ERROR "):
+				c.out.Note("responder child: health probe: " + l)
 			case strings.HasPrefix(l, "HANG "):
 				k, _ := strconv.Atoi(strings.TrimPrefix(l, "HANG "))
 				hung = k
@@ -1169,9 +1288,11 @@ func (c *c11Reg) replay(t *testing.T, path string) {
 				} else {
 					fmt.Printf("replay: server ClientConf generation %d: status %d\n", gen, resp.StatusCode)
 					resp.Body.Close()
+					c.after("http"+strings.ReplaceAll(p[2], "/", "-"), line, 200*time.Millisecond, s)
 				}
 				srv.Close()
 			}
+			c.probeLive("http", line)
 		case "httpraw":
 			for _, gen := range []uint32{0, 1000000} {
 				s := c.newAPI(gen, true)
@@ -1207,11 +1328,23 @@ func (c *c11Reg) replay(t *testing.T, path string) {
 			if proto.Unmarshal(unhex(p[1]), w) != nil {
 				continue
 			}
-			res := vlibc11.Guard(func() { _, _ = c.proc.RegisterBidirectional(w, pb.RegistrationSource_BidirectionalAPI, make([]byte, 16)) })
-			c.out.Checked()
-			if res.Bad() {
-				c.fail("register-bidirectional", res, line)
+			for k, f := range []func(w *pb.C2SWrapper){
+				func(w *pb.C2SWrapper) { _, _ = c.proc.RegisterBidirectional(w, pb.RegistrationSource_BidirectionalAPI, make([]byte, 16)) },
+				func(w *pb.C2SWrapper) { _ = c.proc.RegisterUnidirectional(w, pb.RegistrationSource_API, make([]byte, 16)) },
+				func(w *pb.C2SWrapper) { _, _ = c.proc.VerifProcessBdReq(w) },
+				func(w *pb.C2SWrapper) { _, _ = c.proc.VerifProcessC2SWrapper(w, make([]byte, 16), pb.RegistrationSource_API) },
+			} {
+				entry := []string{"register-bidirectional", "register-unidirectional", "process-bd-req", "process-c2s-wrapper"}[k]
+				wc := proto.Clone(w).(*pb.C2SWrapper)
+				res := vlibc11.Guard(func() { f(wc) })
+				c.out.Checked()
+				if res.Bad() {
+					c.fail(entry, res, line)
+				} else {
+					c.after(entry, line, 0)
+				}
 			}
+			c.probeLive("processor", line)
 		case "dns":
 			if len(p) >= 3 {
 				c.feedChild(t, unhex(p[2]), [][]byte{unhex(p[1])})
@@ -1222,11 +1355,18 @@ func (c *c11Reg) replay(t *testing.T, path string) {
 			c.out.Checked()
 			if res.Bad() {
 				c.fail("dns-process-request", res, line)
+			} else {
+				c.after("dns-process-request", line, 0, s)
 			}
+			c.probeLive("dns-process-request", line)
 		case "ingress":
 			if p[1] == "bd" || p[1] == "register" {
 				fmt.Println("replay: decision-table cases are re-run by the table itself")
 				c.httpTable()
+			}
+			if p[1] == "reghist" {
+				fmt.Println("replay: the registrar histories are re-run as a whole")
+				c.histories()
 			}
 		default:
 			fmt.Println("replay (registrar side): not a registrar case:", p[0])
@@ -1254,6 +1394,7 @@ func TestVerifC11Registrar(t *testing.T) {
 	c.httpTable()
 	c.remoteAddrs()
 	c.processor()
+	c.histories()
 	c.parsers()
 	c.dnsDirect()
 	c.dnsChild(t)
